@@ -94,6 +94,9 @@ def run_prop(ctx, prop, replay=None):
     for b in bad:
         mine = [c for c in b['clauses'] if any(c.startswith(p) for p in prefixes)]
         if not mine:
+            if any(c.startswith('DRIFT') for c in b['clauses']):
+                rec = reps.load_record(b['shard'], b['id'])
+                ctx.drift(f"{rec['kind_']} representation '{rec['name']}' of space {json.dumps(rec['space'])}: {b['clauses']} (numbering / bounds differ from the specification's, the stated properties hold)")
             continue
         rec = reps.load_record(b['shard'], b['id'])
         what = f"{','.join(mine)}: {rec['kind_']} representation '{rec['name']}' of space {json.dumps(rec['space'])}"
